@@ -37,7 +37,7 @@ def gen(tier, rng, cov):
             s += 3 * any(x.startswith("Freeze") and any(y.startswith("Kill") and "c1" not in y for y in w[i + 1:]) for i, x in enumerate(w))
             return s
         good = [w for w in words if score(w) >= 2]
-        n = {"quick": 16, "thorough": 300}[tier]
+        n = {"quick": 16, "thorough": 900}[tier]
         for proto in ("netrpc", "grpc"):
             # (the shutdown request to a stopped net/rpc plugin is only bounded by the yamux keep-alive, C04's thorough tier)
             pool = good if proto == "grpc" else [w for w in good if not any(x.startswith("Freeze") for x in w)]
